@@ -284,21 +284,45 @@ def fragments_of(ctx, FST, src, rnd, limit):
                     judge(ctx, FST, mode, mt, 'c')
 
 
+CROSS_EXTRA = ['yield from x', 'yield x', '(yield from x)', 'await x', 'a := b', 'lambda a: a', 'a if b else c', '*a', '**a', 'a: int', 'a = b', 'not a', 'a, b', 'a,', 'k=v', 'a as b', 'x for x in y',
+               'a:b', '...', 'pass', 'a; b', '', ' ', '# c', '\\\n a', "'s'", "f'{a}'", 'a.b.c', 'a[b]', 'a()', '[a]', '{a: b}', '-a', 'a < b', 'a and b', 'a | b', '1', 'None', '_', 'for a in b', 'if a', '@a',
+               'except: pass', 'case 1: pass', 'T: int', '*Ts', '+', 'and', 'is not', 'a =', 'import a', 'def f(): pass',
+               # wrapper breakers: text that could close / extend the construct a parse mode embeds the fragment in
+               ')', '(', 'a)', '(a', 'a) + (b', 'a] + [b', 'a} | {b', 'a): pass #', 'a: pass #', 'a):\n pass #', 'a, b): pass #', 'a]: pass #', 'a if b', 'a) if (b', '*x] if [b', '[a, *b] if c', 'a = b #',
+               'a): pass\nwith (b', 'a\n): pass\ndef g(\nb', 'a):\n    pass\nexcept (b', 'a as b #', 'a for a in b #', 'a: b # c', 'a #', 'a in b', 'a in b for c in d', 'a] = [b', 'a] for a in [b', 'a, *b',
+               'a): pass\n case (b', 'a: pass\n case b', 'a, /', '*, a', 'a=1', 'a: int = 1', 'a = 1 #', 'T = int', 'x.y', 'x.y as z', 'x as y, z', '* as a']
+MB = {'a': 'á', 'b': '日本', 'c': 'ç', 'x': 'ξ', 'k': 'к', 'v': 'ü', 's': 'ş', 'T': 'Ť'}
+
+
+def mb_variant(s):
+    import re
+    return re.sub(r'(?<![\w"\'\\{])([abcxkvsT])(?![\w"\'])', lambda m: MB[m.group(1)], s)
+
+
 def hostile_table(ctx, FST):
+    """Every text of every mode's table (+ CROSS_EXTRA) x EVERY mode x {as is, multi-byte names, trailing ';', trailing ','}: complete enumeration in both tiers."""
     i = 0
-    for mode, texts in HOSTILE.items():
+    texts_all = []
+    seen = set()
+    for texts in list(HOSTILE.values()) + [CROSS_EXTRA]:
         for t in texts:
-            i += 1
-            if ctx.mine(i):
-                judge(ctx, FST, mode, t, 'g')
-        # cross-mode: valid fragments of other modes
-        for other, texts2 in HOSTILE.items():
-            if other == mode:
-                continue
-            for t in texts2[:6]:
+            if t not in seen:
+                seen.add(t)
+                texts_all.append(t)
+    for mode, own in HOSTILE.items():
+        own = set(own)
+        for t in texts_all:
+            vs = [t]
+            m = mb_variant(t)
+            if m != t:
+                vs.append(m)
+            if '\n' not in t and '#' not in t and t.strip():
+                vs += [t + ';', m + ' ;', t + ',', m + ' ,']
+            for v in dict.fromkeys(vs):
                 i += 1
                 if ctx.mine(i):
-                    judge(ctx, FST, mode, t, 'x')
+                    judge(ctx, FST, mode, v, 'g' if (t in own and v == t) else 'x')
+                    ctx.count('hostile_table_cases')
 
 
 def run(ctx):
